@@ -225,7 +225,7 @@ class NodeWorld:
         appmod = self.mods["application"]
         listen = cfg.get("listen", True)
         node = Node(cfg.get("origin_host", NODE_HOST), cfg.get("realm", NODE_REALM),
-                    ip_addresses=[NODE_IP] if listen else None,
+                    ip_addresses=[NODE_IP] + [f"10.0.0.{i + 2}" for i in range(cfg.get("extra_listen", 0))] if listen else None,
                     tcp_port=3868 if listen else None, vendor_ids=cfg.get("vendor_ids", [10415, 13019]))
         t = cfg.get("node_timers", {})
         for name in ("cea", "cer", "dwa", "idle"):
